@@ -69,6 +69,7 @@ fn account(st: &mut Stats, w: &World, e: &Exec, c19_set: &mut HashSet<u64>, c09_
     st.add("sched.boundary_switch", ss.boundary_switch);
     st.add("sched.forced_switch", ss.forced_switch);
     st.add("sched.decision_points", ss.decision_points);
+    st.add("sched.blocked_handoffs", ss.blocked_handoffs);
     st.add("probes.preempt_same_regex_object", ss.preempt_same_obj);
     st.add("probes.preempt_in_lookaround", ss.preempt_in_lookaround);
     st.add("probes.preempt_with_nonempty_backtrack_stack", ss.preempt_bts_nonempty);
@@ -91,6 +92,7 @@ fn account(st: &mut Stats, w: &World, e: &Exec, c19_set: &mut HashSet<u64>, c09_
     st.add("ops.nested_replace", cs.nested);
     st.add("ops.compile", cs.compile_ops);
     st.add("ops.burst", cs.bursts);
+    st.add("faults.closure_panic", cs.closure_panics);
     st.add("ops.next", cs.nexts);
     st.add("ops.matches", cs.matches);
     st.add("compile_errors", e.compile_errs);
@@ -102,6 +104,7 @@ fn account(st: &mut Stats, w: &World, e: &Exec, c19_set: &mut HashSet<u64>, c09_
     st.add("cmp.compared", e.cmp.compared);
     st.add("cmp.step_count_divergence", e.cmp.step_count_divergence);
     st.add("cmp.fault_divergence", e.cmp.fault_divergence);
+    st.add("cmp.poisoned_after_injected_unwind", e.cmp.poisoned_after_injected_unwind);
     st.add("cmp.incomparable_dead", e.cmp.incomparable_dead);
     st.add("model.calls", e.model.calls);
     st.add("model.memo_hits", e.model.memo_hits);
